@@ -10,9 +10,13 @@
 //         V i j   if (IsValidOwner(or_i, or_j)) or_i->owner = or_j                (CheckSplitOwner's guarded assignment)
 //         A i j   or_i->splits += or_j          M i j   MoveSplits(or_i, or_j)
 //         G i     query GetRealOutRec(or_i)
-//         K i j   CheckSplitOwner(or_i, or_j->splits)   (only meant for states in which every OutRec the search can reach
-//                 has no points: no geometric test is evaluated; used to replay the witness of the refuted termination theorem)
+//         K g i j CheckSplitOwner(or_i, or_j->splits)   (only meant for states in which every OutRec the search can reach
+//                 has no points: no geometric test is evaluated; used to replay the witness of the refuted termination theorem;
+//                 g is only read by the model: which shape of CheckSplitOwner it is asked for)
 //       -> after every op "| <answer> : owner_0 owner_1 ... ; splits_0 , splits_1 , ..."  (-1 = nullptr; answer: G idx, V 0/1, else -)
+//   STATE ct fr pc rs <pathsS> <pathsO> <pathsC>
+//       the same dump as TREE but WITHOUT calling BuildTree64 ("T 0"): what the owner search would start from, for inputs
+//       on which BuildTree64 crashes or hangs
 //   TREE ct fr pc rs <pathsS> <pathsO> <pathsC>
 //       ExecuteInternal(ct, fr, true); CheckBounds forced twice on every closed OutRec (so that every OutRec either has
 //       no points or has a built path and bounds); dump of the ownership state and of the tables the owner search reads
@@ -102,14 +106,14 @@ int main() {
         else if (op == "A") { OutRec* a = R(t.i64()); OutRec* b = R(t.i64()); if (!a->splits) a->splits = new OutRecList(); a->splits->emplace_back(b); }
         else if (op == "M") { OutRec* a = R(t.i64()); OutRec* b = R(t.i64()); MoveSplits(a, b); }
         else if (op == "G") { OutRec* g = GetRealOutRec(R(t.i64())); ans = g ? std::to_string(g->idx) : "-1"; }
-        else if (op == "K") { OutRec* a = R(t.i64()); OutRec* b = R(t.i64()); bool r = b->splits && c.CheckSplitOwner(a, b->splits); ans = r ? "1" : "0"; }
+        else if (op == "K") { t.i64(); OutRec* a = R(t.i64()); OutRec* b = R(t.i64()); bool r = b->splits && c.CheckSplitOwner(a, b->splits); ans = r ? "1" : "0"; }
         else throw std::runtime_error("bad op " + op);
         put_state(os, c, ans);
       }
       for (OutRec* r : c.outrec_list_) r->pts = nullptr;
       for (OutPt* d : dummies) delete d;
       c.CleanUp();
-    } else if (cmd == "TREE") {
+    } else if (cmd == "TREE" || cmd == "STATE") {
       int ct = t.i32(), fr = t.i32(); bool pc = t.b(), rs = t.b();
       Paths64 s = t.paths(), o = t.paths(), cl = t.paths();
       Clipper64 c;
@@ -138,6 +142,7 @@ int main() {
         B[i * n + j] = a->bounds.Contains(b->bounds) ? '1' : '0';
       }
       os << " I " << (n ? I : "-") << " B " << (n ? B : "-");
+      if (cmd == "STATE") { os << " T 0 O 0"; c.CleanUp(); return; }
       PolyTree64 tree; Paths64 open;
       c.BuildTree64(tree, open);
       std::map<const PolyPath*, long long> who;
